@@ -147,6 +147,13 @@ def open_mode(fnode, call):
         return 'r'
     if isinstance(mode, ast.Constant) and isinstance(mode.value, str):
         return mode.value
+    if isinstance(mode, ast.IfExp) and all(
+            isinstance(x, ast.Constant) and isinstance(x.value, str)
+            for x in (mode.body, mode.orelse)):
+        # either mode may be the one used: every capability of both (an open
+        # that creates or truncates under one of them does so on some path)
+        a, b = mode.body.value, mode.orelse.value
+        return a + ''.join(c for c in b if c not in a)
     if isinstance(mode, ast.Name):
         v = local_literal(fnode, mode.id)
         if isinstance(v, str):
